@@ -49,6 +49,7 @@ def run(repo: Repo, tier: str, res: CheckResult, seed: int = 0) -> None:
     write_inventory(repo, res)
     facade_caches(repo, res)
     caches_not_carried_over(repo, res)
+    cache_hits_do_not_skip_validation(repo, res)
     # the process-wide lru_cache of normalize_type is keyed by typing's equality (Union[A, B] == Union[B, A]): it is
     # history-free only if the normal form does not depend on the order/spelling the hint was first seen with
     from .c15 import ordering_rule
@@ -616,3 +617,36 @@ def caches_not_carried_over(repo: Repo, res: CheckResult, prop: str = "C11", rul
                                     "empty: the entries were compiled under the options and recipe of the retort that made them and are "
                                     "keyed by the type alone" + (": " + consequence if consequence else ""), bad.lineno))
     res.count("FACADE.retort-methods", n, 20)
+
+
+def cache_hits_do_not_skip_validation(repo: Repo, res: CheckResult) -> None:
+    """A facade method that refuses some calls (raise under a test of the ARGUMENTS) must refuse them whatever the retort has
+    done before: a return taken on a cache hit in front of the refusal makes the outcome of the call depend on whether an
+    earlier call filled the cache (dump(Box(...)) without a type is an error on a fresh retort and an answer after
+    get_dumper(Box))."""
+    n = 0
+    for short in ("morphing/facade/retort", "conversion/facade/retort"):
+        m = repo.mod(short)
+        for ci in m.classes.values():
+            for mname, fn in ci.methods.items():
+                raises = [r for r in walk_no_nested(fn) if isinstance(r, ast.Raise) and r.exc is not None]
+                if not raises:
+                    continue
+                cache_names = set()
+                for a in walk_no_nested(fn):
+                    if isinstance(a, ast.Assign) and len(a.targets) == 1 and isinstance(a.targets[0], ast.Name) and any(
+                            isinstance(x, ast.Attribute) and x.attr.endswith("_cache") for x in ast.walk(a.value)):
+                        cache_names.add(a.targets[0].id)
+                n += 1
+                res.evaluated(f"cache-hit-before-refusal:{ci.name}.{mname}", True)
+                last_raise = max(r.lineno for r in raises)
+                for cond in [x for x in walk_no_nested(fn) if isinstance(x, ast.If)]:
+                    reads_cache = any((isinstance(x, ast.Name) and x.id in cache_names) or (isinstance(x, ast.Attribute) and x.attr.endswith("_cache"))
+                                      for x in ast.walk(cond.test))
+                    rets = [r for st in cond.body for r in ast.walk(st) if isinstance(r, ast.Return)]
+                    if reads_cache and rets and rets[0].lineno < last_raise:
+                        res.add(Finding("C11", "FACADE.cache-hit-skips-refusal", m.rel, f"{ci.name}.{mname}", norm(cond.test)[:100],
+                                        f"`if {norm(cond.test)[:60]}: {norm(rets[0])[:40]}` answers from the cache BEFORE the method reaches "
+                                        "a refusal of its arguments: the same call is an error on a fresh retort and an answer after an "
+                                        "earlier call has filled the cache", cond.lineno))
+    res.count("FACADE.refusing-methods", n, 2)
